@@ -150,6 +150,44 @@ fn fr(a: &[&str]) -> String {
     }
 }
 
+// ---- feature `rand` (C18): a generator that replays a given stream of 32-bit words (little-endian bytes for fill_bytes)
+#[cfg(feature = "withrand")]
+mod rnd {
+    use super::*;
+    use num_bigint::{RandBigInt, RandomBits};
+    use rand::distributions::uniform::UniformSampler;
+    use rand::distributions::Distribution;
+    pub struct Stream { pub w: Vec<u32>, pub pos: usize }
+    impl rand::RngCore for Stream {
+        fn next_u32(&mut self) -> u32 { let v = self.w[self.pos % self.w.len()]; self.pos += 1; v }
+        fn next_u64(&mut self) -> u64 { let lo = self.next_u32() as u64; let hi = self.next_u32() as u64; lo | (hi << 32) }
+        fn fill_bytes(&mut self, dest: &mut [u8]) {
+            // whole words, little-endian; a trailing partial word consumes one word
+            for chunk in dest.chunks_mut(4) { let b = self.next_u32().to_le_bytes(); chunk.copy_from_slice(&b[..chunk.len()]); }
+        }
+        fn try_fill_bytes(&mut self, dest: &mut [u8]) -> Result<(), rand::Error> { self.fill_bytes(dest); Ok(()) }
+    }
+    fn stream(a: &[&str], from: usize) -> Stream { Stream { w: a[from..].iter().map(|x| u32::from_str_radix(x, 16).unwrap()).collect(), pos: 0 } }
+    pub fn run(a: &[&str]) -> String {
+        match a[0] {
+            "rgen_biguint" => { let mut r = stream(a, 2); let v = r.gen_biguint(pu64(a[1])); format!("{} {}", fu(&v), r.pos) }
+            "rgen_bigint" => { let mut r = stream(a, 2); let v = r.gen_bigint(pu64(a[1])); format!("{} {}", fi(&v), r.pos) }
+            "rbits_u" => { let mut r = stream(a, 2); let v: BigUint = RandomBits::new(pu64(a[1])).sample(&mut r); format!("{} {}", fu(&v), r.pos) }
+            "rbits_i" => { let mut r = stream(a, 2); let v: BigInt = RandomBits::new(pu64(a[1])).sample(&mut r); format!("{} {}", fi(&v), r.pos) }
+            "rgen_below" => { let mut r = stream(a, 2); let v = r.gen_biguint_below(&pu(a[1])); format!("{} {}", fu(&v), r.pos) }
+            "rgen_urange" => { let mut r = stream(a, 3); let v = r.gen_biguint_range(&pu(a[1]), &pu(a[2])); format!("{} {}", fu(&v), r.pos) }
+            "rgen_irange" => { let mut r = stream(a, 3); let v = r.gen_bigint_range(&pi(a[1]), &pi(a[2])); format!("{} {}", fi(&v), r.pos) }
+            "runiform_u" => { let mut r = stream(a, 4); let s = if a[1] == "incl" { num_bigint::UniformBigUint::new_inclusive(pu(a[2]), pu(a[3])) } else { num_bigint::UniformBigUint::new(pu(a[2]), pu(a[3])) }; let v = s.sample(&mut r); format!("{} {}", fu(&v), r.pos) }
+            "runiform_i" => { let mut r = stream(a, 4); let s = if a[1] == "incl" { num_bigint::UniformBigInt::new_inclusive(pi(a[2]), pi(a[3])) } else { num_bigint::UniformBigInt::new(pi(a[2]), pi(a[3])) }; let v = s.sample(&mut r); format!("{} {}", fi(&v), r.pos) }
+            "rsingle_u" => { let mut r = stream(a, 3); let v = num_bigint::UniformBigUint::sample_single(pu(a[1]), pu(a[2]), &mut r); format!("{} {}", fu(&v), r.pos) }
+            "rsingle_i" => { let mut r = stream(a, 3); let v = num_bigint::UniformBigInt::sample_single(pi(a[1]), pi(a[2]), &mut r); format!("{} {}", fi(&v), r.pos) }
+            _ => "UNKNOWN".into(),
+        }
+    }
+}
+#[cfg(not(feature = "withrand"))]
+mod rnd { pub fn run(_a: &[&str]) -> String { "UNSUPPORTED".into() } }
+
 fn hash_of<T: std::hash::Hash>(x: &T) -> u64 { use std::hash::Hasher; let mut h = std::collections::hash_map::DefaultHasher::new(); x.hash(&mut h); h.finish() }
 fn sg(s: &str) -> Sign { match s { "-" => Sign::Minus, "0" => Sign::NoSign, _ => Sign::Plus } }
 
@@ -158,6 +196,7 @@ fn run(a: &[&str]) -> String {
     if op == "sc" { return sc(a); }
     if op == "cv" { return cv(a); }
     if op == "fr" { return fr(a); }
+    if op.starts_with('r') && (op.starts_with("rgen_") || op.starts_with("rbits_") || op.starts_with("runiform_") || op.starts_with("rsingle_")) { return rnd::run(a); }
     match op {
         // ---- BigUint arithmetic
         "uadd" => fu(&(&pu(a[1]) + &pu(a[2]))),
